@@ -108,6 +108,8 @@ class Number(Operand):
 _re_ref = r'(?P<ref>[[:alpha:]_\\]+[[:alnum:]\.\_\\]*)'
 _re_sheet_id = r"""
     (?>
+        '\[(?P<excel_id>[0-9]+)\](?P<sheet>(?>''|[^\?*\/\[\]':\\])+)?'
+    |
         '((?P<directory>(?>''|[^\['])+)?\/?\[(?P<filename>[^\[\]]+)\])?
          (?P<sheet>(?>''|[^\?*\/\[\]':\\])+)?'
     |
